@@ -467,6 +467,8 @@ def classify_doc(run, doc, dr, feats, active):
 
 
 # ------------------------------------------------------------------ witnesses of FIXED findings: run with every check
+XSH = '<?xml version="1.0" encoding="UTF-8"?>\n<xs:schema xmlns:xs="http://www.w3.org/2001/XMLSchema"'
+
 FIXED_WITNESSES = [
     # C02-F1 (fixed 6a57843): a default on an xs:gYear attribute made the generated package fail at import
     {"name": "F1-period-default", "root": "doc", "sources": {"main.xsd": """<?xml version="1.0" encoding="UTF-8"?>
@@ -496,6 +498,14 @@ FIXED_WITNESSES = [
 </xs:schema>
 """}, "docs": ['<e xmlns="urn:w">t<a>0A</a>u<a>ff00</a><b>AAEC</b>v</e>', '<w:e xmlns:w="urn:w"><w:a>7478313E</w:a></w:e>',
                '<e xmlns="urn:w">only text</e>']},
+    # C02-F8 (fixed f0dd6fc, by the C05 builder: converter.serialize takes token tuples): frozen -> tuple tokens in mixed content
+    {"name": "F8-frozen-tokens-in-mixed", "root": "m", "variants": [{"frozen": True}, {"frozen": True, "slots": True}],
+     "sources": {"main.xsd": XSH + """>
+  <xs:element name="m"><xs:complexType mixed="true"><xs:sequence>
+    <xs:element name="x.y" minOccurs="0"><xs:simpleType><xs:list itemType="xs:boolean"/></xs:simpleType></xs:element>
+  </xs:sequence></xs:complexType></xs:element>
+</xs:schema>
+"""}, "docs": ["<m> a <x.y>true true</x.y>t</m>"]},
     # C02-F16 (fixed 546b6b2): nillable was lost for an element whose type names a global simpleType
     {"name": "F16-nillable-named-simple-type", "root": "doc", "sources": {"main.xsd": """<?xml version="1.0" encoding="UTF-8"?>
 <xs:schema xmlns:xs="http://www.w3.org/2001/XMLSchema">
@@ -516,7 +526,6 @@ FIXED_WITNESSES = [
 ]
 
 
-XSH = '<?xml version="1.0" encoding="UTF-8"?>\n<xs:schema xmlns:xs="http://www.w3.org/2001/XMLSchema"'
 
 # witnesses of OPEN findings: deterministic minimal programs that run with every check, so that every listed
 # defect is re-found (KNOWN-FINDING line) whatever the random schemas of the run happen to contain
@@ -548,13 +557,6 @@ OPEN_WITNESSES = [
     <xs:element name="q" type="xs:int"/></xs:sequence></xs:extension></xs:complexContent></xs:complexType>
 </xs:schema>
 """}, "docs": ['<doc xmlns:xsi="http://www.w3.org/2001/XMLSchema-instance" xsi:type="D"><p>x</p><q>1</q></doc>']},
-    {"name": "F8-frozen-tokens-in-mixed", "root": "m", "variants": [{"frozen": True}, {"frozen": True, "slots": True}],
-     "sources": {"main.xsd": XSH + """>
-  <xs:element name="m"><xs:complexType mixed="true"><xs:sequence>
-    <xs:element name="x.y" minOccurs="0"><xs:simpleType><xs:list itemType="xs:boolean"/></xs:simpleType></xs:element>
-  </xs:sequence></xs:complexType></xs:element>
-</xs:schema>
-"""}, "docs": ["<m> a <x.y>true true</x.y>t</m>"]},
     {"name": "F9-all-group-order", "root": "r", "sources": {"main.xsd": XSH + """>
   <xs:element name="r"><xs:complexType><xs:all>
     <xs:element name="h" type="xs:int" minOccurs="0"/>
@@ -853,6 +855,7 @@ def run(ck: Check):
                         o_el = parse_doc(clean_out(dr["ok"]))
                         tout = f"(Some {xdoc_term(o_el)})"
                         valid = bool(p["lxml"].validate(o_el))
+                        dr["lxml_err"] = "" if valid else str(p["lxml"].error_log.last_error)
                     except etree.XMLSyntaxError:
                         tout, valid = "(Some (DText []))", False
                         ck.failure("output-ill-formed", "the serializer's output is not well-formed XML",
@@ -988,7 +991,10 @@ def run(ck: Check):
             if di in bad_valid:
                 ck.failure("corr-schema-validity", "Spec/XsdCm.v's typed validity (on the independent reader's schema) rejects a "
                            "document lxml's XMLSchema validator accepts", replay_of(rr, doc=doc))
-            if di in bad_outvalid:
+            if di in bad_outvalid and "does not match the fixed value constraint" in (dr.get("lxml_err") or ""):
+                # libxml2 compares fixed values of boolean / float / date types lexically ('0' vs 'false', 1e3 vs 1E3, Z vs +00:00)
+                ck.notes.append("libxml2 refused a produced document for a lexically different but equal fixed value (ignored)")
+            elif di in bad_outvalid:
                 ck.failure("corr-schema-validity-output", "Spec/XsdCm.v's typed validity and lxml disagree on a produced document",
                            replay_of(rr, doc=doc, out=dr.get("ok"), lxml_valid=dr.get("valid")))
             dr["active"], dr["feats"], dr["quirks"] = active[di], ft, (quirks[di] if di in bad_unord else [])
